@@ -87,7 +87,7 @@ def run_case(seed, kind=None):
             rec['diffs'].append([f'value:{f}', {i: av.get(i) for i in bad[:3]} or av, {i: ev.get(i) for i in bad[:3]} or ev])
     if 'ids_changed' in a:
         rec['diffs'].append(['ids-after-evaluations', a['ids_changed'], a.get('ids')])
-    if rec['kind'] in ('join', 'groupby') and 'ids' in a and a.get('ids_again_calls'):
+    if rec['kind'] in ('join', 'groupby', 'split') and 'ids' in a and a.get('ids_again_calls'):
         rec['memo_problems'] = [f'{rec["kind"]}: reading ids again re-executed {sorted(set(a["ids_again_calls"]))} although the id '
                                 f'mapping is kept in memory once per pipeline object']
     hash_checks(rec, b, layer, d, r)
@@ -154,6 +154,38 @@ def compare_model(rec, ans):
     return diffs
 
 
+def run_dynamic_ids(seed):
+    """a Source whose ids come from an @impure listing >> CheckIds: after the listing changes, every field follows the
+    *current* ids (C15: KeyError exactly for ids outside the current ids)"""
+    rng = random.Random(seed)
+    ids1 = rng.sample(rel.UNIVERSE, rng.randint(1, 4))
+    ids2 = rng.sample(rel.UNIVERSE, rng.randint(1, 4))
+    src = {'k': 'source', 'cls': 'DynS', 'ids': ids1, 'ids_impure': True, 'fields': {'x': {'args': ['i']}}, 'params': {}, 'cargs': {}, 'defaults': {}}
+    d = {'k': 'chain', 'flavour': 'chain', 'layers': [src, {'k': 'check_ids'}]}
+    b = Builder()
+    problems = []
+    try:
+        layer = b.layer(d)
+        fn = layer._compile('x')
+        for ids in (ids1, ids2, ids1):
+            b.world.consts[b.ids_fn['DynS']] = tuple(ids)
+            cur = tuple(layer.ids)
+            for i in rel.UNIVERSE:
+                try:
+                    fn(i)
+                    ok = True
+                except KeyError:
+                    ok = False
+                if ok != (i in cur):
+                    problems.append({'desc': d, 'ids_then': ids1, 'ids_now': list(cur),
+                                     'msg': f'CheckIds after the id listing changed to {list(cur)}: x({i!r}) '
+                                            f'{"was accepted" if ok else "raised KeyError"} although {i!r} is {"not " if not (i in cur) else ""}in the current ids'})
+                    return problems
+    except Exception as e:
+        problems.append({'desc': d, 'msg': 'raised ' + exc_name(e) + ': ' + str(e)[:150]})
+    return problems
+
+
 def run_shard(args):
     seed, n, kinds = args
     recs = []
@@ -192,5 +224,10 @@ def run_shard(args):
         if md:
             model_bad.append({'desc': rec['desc'], 'diffs': json.loads(json.dumps(md[:3], default=str))})
     stats['distinct_nontrivial'] = len(stats.pop('distinct'))
+    if kinds and 'check_ids' in kinds:
+        for i in range(max(2, n // 5)):
+            for p in run_dynamic_ids(seed * 7 + i):
+                oracle_bad.append({'desc': p['desc'], 'diffs': [['dynamic-ids', p['msg']]]})
+        stats['dynamic_ids_cases'] = max(2, n // 5)
     sample = next(({'desc': r['desc'], 'ids': r['real'].get('ids')} for r in recs if 'real' in r), None)
     return stats, oracle_bad, model_bad, hash_bad, sample, memo_bad
